@@ -13,8 +13,11 @@ from concurrent.futures import ThreadPoolExecutor
 HERE = os.path.dirname(os.path.dirname(os.path.abspath(__file__)))     # /verif
 PY = os.environ.get('H2MON_PYTHON', '/venv/bin/python')
 FINDINGS = os.path.join(HERE, 'known_findings.json')
-EVIDENCE_DIR = os.path.join(HERE, 'evidence')
-REPLAY_DIR = os.path.join(HERE, 'replays')
+# H2MON_OUT redirects evidence and replay files (used when a check is pointed at a scratch copy of the library,
+# so that results about a modified tree never replace the evidence about /repo itself)
+OUT = os.environ.get('H2MON_OUT', HERE)
+EVIDENCE_DIR = os.path.join(OUT, 'evidence')
+REPLAY_DIR = os.path.join(OUT, 'replays')
 
 
 def src_dir():
